@@ -53,8 +53,10 @@ def mk_graph(g):
         # the same graph as a networkx object: nodes inserted in reverse order, edges in reverse order and orientation
         import networkx
         N = networkx.Graph()
-        N.add_nodes_from(range(g['n'], 0, -1))
-        N.add_edges_from((v, u) for u, v in reversed(g['edges']))
+        # node names: 1..n, or (nx=2) integers starting below zero - the documented conversion keeps their sorted order
+        shift = 0 if g['nx'] == 1 else -(g['n'] // 2 + 1)
+        N.add_nodes_from(range(g['n'] + shift, shift, -1))
+        N.add_edges_from((v + shift, u + shift) for u, v in reversed(g['edges']))
         N.name = 'a networkx graph'
         return N
     if g.get('grown') and g['n'] >= 2:
@@ -77,7 +79,10 @@ def mk_graph(g):
                 G.add_edge(u, v)
             G.add_edge(*missing[len(E) % len(missing)])
             _observe_simple(G)
-            G.remove_edge(*missing[len(E) % len(missing)])
+            a, b = missing[len(E) % len(missing)]
+            if len(E) % 2:
+                a, b = b, a                         # either orientation names the same edge
+            G.remove_edge(a, b)
             G.add_edge(*E[0])
             return G
     G = Graph(n)
